@@ -134,6 +134,7 @@ func Profile(name string) Knobs {
 		k.PExtRes = 0.4
 		k.KindWeights = map[string]int{"cpu": 3, "besteffort": 1, "whole": 5, "fraction": 3, "gpumem": 2, "multifrac": 1, "mig": 1, "ext": 4}
 		k.PDRA = draAccounting * 0.3 / 0.35 // DRA (dra.go); see draAccounting
+		k.PArrival = 0.15
 	case "fractions": // C02
 		k.NodesMax = 3
 		k.GPUChoices = []int{1, 2, 2, 4}
@@ -143,6 +144,7 @@ func Profile(name string) Knobs {
 		k.Fill, k.PTerminating = 0.6, 0.3
 		k.CyclesMin, k.CyclesMax = 3, 7
 		k.PTopology, k.PAntiAffinity, k.PAffinity = 0, 0.02, 0
+		k.PArrival = 0.15
 	case "sharing": // C01 / C02: multi-device fractions next to shared, idle and releasing devices on few small nodes
 		k.NodesMin, k.NodesMax = 1, 2
 		k.GPUChoices = []int{2, 3, 3, 4}
@@ -173,6 +175,7 @@ func Profile(name string) Knobs {
 		k.PGang, k.PSubGroups = 0.5, 0.35
 		k.PNodePool = 0.3
 		k.KindWeights = map[string]int{"cpu": 4, "whole": 5, "fraction": 2}
+		k.PArrival = 0.15
 	case "victims": // C06
 		k.Fill, k.PTerminating = 0.8, 0.05
 		k.PMinRuntime = 0.5
@@ -238,6 +241,7 @@ func Profile(name string) Knobs {
 		k.PDRA = draAccounting  // DRA (dra.go)
 		k.PDRAGpu = draGpuShare // DRA GPU-class claims (dra_gpu.go)
 		k.PNodeGone = 0.08
+		k.PArrival = 0.15
 	case "mixed":
 	}
 	return k
